@@ -167,6 +167,37 @@ def worker(states):
     return out
 
 
+
+
+def replay(path):
+    """re-run one stored case (bin/check C02 --replay <file>) against the library as it is now"""
+    import json
+    blob = json.load(open(path))
+    st = _state_of(blob['case'])
+    if st is None:
+        print('REPLAY property=C02: %s holds a recorded observation, not a case of the enumerated universe; it was rejected with: %s'
+              % (path, str(blob.get('why'))[:300]))
+        print('(the file alone does not allow the case to be re-executed: re-run bin/check C02 to observe the library again)')
+        return 2
+    out = _replay_states([st])
+    if out['bad']:
+        print('VIOLATION property=C02 replay=%s' % path)
+        print('  why: %s' % (str(out['bad'][0]['why'])[:400],))
+        return 1
+    print('REPLAY property=C02: the stored case agrees with the specification now (%s)' % path)
+    return 0
+
+
+def _state_of(case):
+    if 'target' in case and 'pred' in case and 'ops' in case:
+        return dict(target=case['target'], ops=case['ops'], pred=case['pred'])
+    return None
+
+
+def _replay_states(states):
+    return worker(states)
+
+
 def has_op(ops, code):
     def in_arg(ae):
         if ae['a'] in ('t', 'spec'):
